@@ -47,6 +47,7 @@ class Family:
         self.axioms = list(axioms)    # [expr str over a universally quantified `o` of this family]
         self.eq_str = eq_str          # expr str over (o, s)
         self.eq = eq                  # expr str over (a, b)
+        self.truthy = truthy          # expr str over `o`: bool(o) (objects with __bool__/__len__); default: always true
         self.attr_requires = dict(attr_requires or {})   # attr -> expr over `o` (else AttributeError)
         self.note = note
 
@@ -62,7 +63,7 @@ class Contract:
                  expect_obligations=None, cover=True, exc_mode='auto', spec_module=None,
                  safety=True, witness=None, merge=True, yield_each=(), yield_key=None,
                  concrete_ensures=(), witness_library=(), yield_each_local=(), region=None, loop_each=None,
-                 concrete_only=False):
+                 concrete_only=False, abstract_locals=None):
         self.id = id
         self.file = file
         self.qualname = qualname
@@ -115,6 +116,7 @@ class Contract:
         self.yield_key = yield_key              # key(c): proved fresh at every yield (=> pairwise distinct)
         self.witness_library = list(witness_library)   # concrete inputs tried on the real code when a proof fails
         self.concrete_ensures = list(concrete_ensures)   # executable consequences, used by replay only
+        self.abstract_locals = dict(abstract_locals or {})   # nested def name -> FnSpec (seen through its contract)
         self.concrete_only = concrete_only   # replay judges by concrete_ensures alone (spec terms not executable)
 
 
